@@ -2521,15 +2521,12 @@ func (c *compiler) VisitWhileStmt(s *ast.WhileStmt) ast.VisitResult {
 
 // for info on how the generated ir works you might want to see https://llir.github.io/document/user-guide/control/#Loop
 func (c *compiler) VisitForStmt(s *ast.ForStmt) ast.VisitResult {
-	new_IorF_comp := func(ipred enum.IPred, fpred enum.FPred, x value.Value, xType ddpIrType, yi value.Value, yiType ddpIrType, yf value.Value) value.Value {
-		if ddptypes.DeepEqual(s.Initializer.Type, ddptypes.BYTE) {
-			x, yi = c.floatOrByteAsInt(x, xType), c.floatOrByteAsInt(yi, yiType)
-		}
-
+	// both sides are compared in the type of the counter (the end value and the step size may be of any numeric type)
+	new_IorF_comp := func(ipred enum.IPred, fpred enum.FPred, x value.Value, xType ddpIrType, y value.Value, yType ddpIrType) value.Value {
 		if ddptypes.DeepEqual(s.Initializer.Type, ddptypes.KOMMAZAHL) {
-			return c.cbb.NewFCmp(fpred, x, yf)
+			return c.cbb.NewFCmp(fpred, c.intOrByteAsFloat(x, xType), c.intOrByteAsFloat(y, yType))
 		} else {
-			return c.cbb.NewICmp(ipred, x, yi)
+			return c.cbb.NewICmp(ipred, c.floatOrByteAsInt(x, xType), c.floatOrByteAsInt(y, yType))
 		}
 	}
 
@@ -2606,7 +2603,7 @@ func (c *compiler) VisitForStmt(s *ast.ForStmt) ast.VisitResult {
 
 	c.cbb = condBlock
 	// we check the counter differently depending on wether or not we are looping up or down (positive vs negative stepsize)
-	cond := new_IorF_comp(enum.IPredSLT, enum.FPredOLT, incrementer, incrementerType, newInt(0), c.ddpinttyp, constant.NewFloat(ddpfloat, 0.0))
+	cond := new_IorF_comp(enum.IPredSLT, enum.FPredOLT, incrementer, incrementerType, newInt(0), c.ddpinttyp)
 	c.commentNode(c.cbb, s, "")
 	c.cbb.NewCondBr(cond, loopDown, loopUp)
 
@@ -2615,7 +2612,7 @@ func (c *compiler) VisitForStmt(s *ast.ForStmt) ast.VisitResult {
 	c.scp = newScope(c.scp) // temporaries of the bound are freed after every evaluation
 	to, toType, _ := c.evaluate(s.To)
 	c.scp = c.exitScope(c.scp)
-	cond = new_IorF_comp(enum.IPredSLE, enum.FPredOLE, c.cbb.NewLoad(indexTyp.IrType(), indexVar), indexTyp, to, toType, to)
+	cond = new_IorF_comp(enum.IPredSLE, enum.FPredOLE, c.cbb.NewLoad(indexTyp.IrType(), indexVar), indexTyp, to, toType)
 	c.commentNode(c.cbb, s, "")
 	c.cbb.NewCondBr(cond, forBody, leaveBlock)
 
@@ -2624,7 +2621,7 @@ func (c *compiler) VisitForStmt(s *ast.ForStmt) ast.VisitResult {
 	c.scp = newScope(c.scp) // temporaries of the bound are freed after every evaluation
 	to, toType, _ = c.evaluate(s.To)
 	c.scp = c.exitScope(c.scp)
-	cond = new_IorF_comp(enum.IPredSGE, enum.FPredOGE, c.cbb.NewLoad(indexTyp.IrType(), indexVar), indexTyp, to, toType, to)
+	cond = new_IorF_comp(enum.IPredSGE, enum.FPredOGE, c.cbb.NewLoad(indexTyp.IrType(), indexVar), indexTyp, to, toType)
 	c.commentNode(c.cbb, s, "")
 	c.cbb.NewCondBr(cond, forBody, leaveBlock)
 
